@@ -78,12 +78,17 @@ def check(prog: Program, run: Run) -> None:
              "unpack_from are used", floor=3)
     run.rule("C02.R5", "string encodings: (type, encoding, byte order) -> codec as in ODX",
              floor=5)
+    run.rule("C02.R6", "MIN-MAX-LENGTH: the terminator is emitted / searched by byte counts, the "
+             "same way in encoder and decoder (shared with C01.R7)", floor=3)
     _formulas(prog, run)
     _bcd(prog, run)
     _siblings(prog, run)
     _single_writer(prog, run)
     _backend(prog, run)
     _strings(prog, run)
+    from . import c01
+    from .common import run_as
+    run_as(run, "C01.R7", "C02.R6", lambda r: c01._terminator(prog, r))
 
 
 # ----------------------------------------------------------------------- R1
